@@ -62,6 +62,10 @@ PLANS = {
     'date10w': lambda: [['0', '1', '2', '9']] + [['0', '1', '3', '-']] * 3 + [['-', '1']] + [['0', '1', '3', '-']] * 2 + [['-', '1']] + [['0', '1', '3']] * 2,
     'ts': lambda: ts_template(False),
     'tsfull': lambda: ts_template(True),
+    # fractions of a second of 0..10 digits: runs of 9s and 0s as macro-symbols, then single digits
+    'frac': lambda: [['2001-12-14 21:59:43', '2001-12-31T23:59:59'], ['', '.'], ['', '9', '99', '999999', '000000', '517599', '12345'],
+                     ['', '0', '4', '5', '9'], ['', '0', '5', '9'], ['', '9', '99', '0'], ['', 'Z', ' +01:00']],
+    'fracfree': lambda: [['2001-12-31 23:59:59.']] + [['0', '5', '9']] * 9,
     # texts that end in a line feed: resolve() only (Python's $)
     'lf': lambda: free(['1', 'null', '~', '.5', '\n', ' '], 3),
     # exponent forms
@@ -82,8 +86,8 @@ PLANS.update({
                             '.\u0131nf', '.\uff49nf', '.\u026anf', '\uff4fn', '\u043en', '\u041eff', 'n\u043e', '\uff5e',
                             '\uff1c\uff1c', '\uff1d', '\u212a', 'O\u212a', '-', '.', '1', 'n', NBSP], 2),
 })
-TIERS = {'quick': ['num5', 'wide3', 'kw2', 'sexa5', 'sexat', 'date10', 'ts', 'lf', 'exp', 'uni_num3', 'uni_ts', 'uni_kw'],
-         'thorough': ['num6', 'num5a', 'wide4', 'kw3', 'sexa6', 'sexat', 'date10w', 'tsfull', 'lf', 'exp', 'uni_num', 'uni_ts', 'uni_kw'],
+TIERS = {'quick': ['num5', 'wide3', 'kw2', 'sexa5', 'sexat', 'date10', 'ts', 'frac', 'lf', 'exp', 'uni_num3', 'uni_ts', 'uni_kw'],
+         'thorough': ['num6', 'num5a', 'wide4', 'kw3', 'sexa6', 'sexat', 'date10w', 'tsfull', 'frac', 'fracfree', 'lf', 'exp', 'uni_num', 'uni_ts', 'uni_kw'],
          'smoke': ['kw2', 'lf', 'exp']}
 
 TAGP = 'tag:yaml.org,2002:'
@@ -228,9 +232,8 @@ def value_matches(hval, real, text):
     if k == 'datetime':
         if type(real) is not datetime.datetime:
             return 'not a datetime: %r' % (real,)
-        y, mo, d, h, mi, s, fr, tz = hval[1:9]
-        lo = int(''.join(map(str, (fr + [0] * 6)[:6])) or '0')
-        hi = lo + (1 if any(fr[6:]) else 0)
+        y, mo, d, h, mi, s, lo, tz = hval[1:9]
+        hi = lo
         base = datetime.datetime(y, mo, d, h, mi, s)
         if tz[0] == 'none':
             if real.tzinfo is not None:
@@ -324,6 +327,24 @@ def q_literal(t):
     return '|-\n  ' + t
 
 
+def base_pass(yaml, text, drift):
+    """use BaseLoader / CBaseLoader / BaseDumper on the text (no verdict: they ignore types by design)"""
+    for L in (yaml.BaseLoader, getattr(yaml, 'CBaseLoader', None)):
+        if L is None:
+            continue
+        try:
+            yaml.load('- ' + text + '\n- "x"\n', Loader=L)
+        except yaml.YAMLError:
+            pass
+    for D in (yaml.BaseDumper, getattr(yaml, 'CBaseDumper', None)):
+        if D is None:
+            continue
+        try:
+            yaml.dump([text], Dumper=D)
+        except yaml.YAMLError:
+            pass
+
+
 def judge_plain(hcls, hval, tag, oc, val, text):
     """one occurrence of an untagged plain scalar: node tag `tag`, construction outcome (oc, val), against the
     specification's class and value; None or (got, why)"""
@@ -372,6 +393,14 @@ def work(states, extra):
 
     def drift(what):
         res['drift'][what] = res['drift'].get(what, 0) + 1
+
+    # ---- 0. "whatever was loaded before": the untyped Base classes see a part of the texts first, in this same process
+    # (one text per first character and every eighth text), then the typed loaders and dumpers must type them as ever
+    firsts = {}
+    for k, it in enumerate(items):
+        if it[0][:1] not in firsts or k % 8 == 0:
+            firsts.setdefault(it[0][:1], it)
+            base_pass(yaml, it[0], drift)
 
     # ---- 1. Resolver.resolve directly (plain and quoted flags)
     for text, hcls, hval, dev in items:
@@ -803,6 +832,11 @@ def ctx_work(states, extra):
         res['docs'] += 1
         if res['sample'] is None and len(occs) > 1 and rnd.random() < 0.05:
             res['sample'] = {'stream': stream, 'expected': [e['cls'] for e in st['exp']]}
+        if res['docs'] % 4 == 1:
+            try:
+                list(yaml.load_all(stream, Loader=yaml.BaseLoader))
+            except yaml.YAMLError:
+                pass
         for L in loaders:
             ld = L(stream)
             try:
@@ -1037,7 +1071,7 @@ def main(tier, replay=None):
              'exhaustive': True, 'distinct_nontrivial': sum(o['nontrivial'] for o in out),
              'texts_loadable_as_plain_scalar': sum(o['plain'] for o in out),
              'rule': 'one TLC state per text of the plans; non-trivial = the repository gives the text a type other than str; '
-                     'every text is resolved, loaded plain/single/double/literal with %s and dumped as str with %s'
+                     'every text is resolved, loaded plain/single/double/literal with %s and dumped as str with %s (a part of them after BaseLoader / CBaseLoader / BaseDumper saw the text in the same process)'
                      % (', '.join(loaders), ', '.join(dumpers)),
              'model_relation_counts': devs, 'plans': {nm: [len(s) for s in PLANS[nm]()] for nm in names},
              'generated_values': len(vals), 'samples': samples[:8],
@@ -1045,7 +1079,7 @@ def main(tier, replay=None):
     v.assumptions = ['texts are sequences over the plan alphabets (ASCII); characters outside them are covered only by the corpus scalars',
                      'a text counts as a plain scalar when the loader under test reads "- <text>" as one plain scalar equal to it',
                      'decimal floats must be correctly rounded (exact rational arithmetic); sexagesimal floats within one ulp per term',
-                     'datetimes: same instant, same zone awareness, microseconds truncated or rounded; the UTC offset itself is not compared',
+                     'datetimes: same instant, same zone awareness, microseconds = the first six fraction digits (truncation, as PyYAML documents); the UTC offset itself is not compared',
                      'texts whose type has no value (0x_, month 13, hour 24, zone +24:00): a YAML error or any value, but no other exception',
                      'TLC coverage statistics are off for MC_Resolver (the regexp ASTs make -coverage run out of memory); '
                      'the single action Extend generates every non-initial state']
